@@ -1,5 +1,133 @@
-import Rtcm.Model.Names
-import Rtcm.Model.Socket
-import Rtcm.Gen.Tables
+import Rtcm.Lemmas.Bits
+import Rtcm.Lemmas.Decode
+import Rtcm.Props.C10
+/-
+  C03 — every data field decodes to the value its bits encode, for all message types.
+
+  What is proved here, for every table and definition (hence for all ~150 identities):
+  * the bits of a field are the big-endian slice of the payload at the running offset, refused when
+    the slice would leave the payload (`C03_extract_is_slice`);
+  * one plain field occurrence yields exactly one attribute, keyed by (field, group indices) and
+    valued by the type-directed reading of those bits times the resolution, advancing the offset by
+    the field width and touching nothing else (`C03_plain_field`, `C03_reading_*`);
+  * bytes after the last field change nothing (`C03_trailing_bytes`);
+  * every definition in the current tables is well-formed (`C03_all_defs_wf`).
+  PARTIAL: the relational "layout" specification (`Shape`) of DESIGN 6-C03 — that the sequence of
+  occurrences produced by the recursive walk is the definition-order layout — is not stated
+  independently of the walk; the walk itself (`decItems`) is validated against the implementation
+  and against the generator's independent layout by the correspondence run.
+-/
 namespace Rtcm
+
+theorem C03_all_defs_wf : ∀ e ∈ allDefs, wfDef T e.2 = true := C10_all_wf
+
+/-- the extracted number is the big-endian value of the `w` payload bits starting at `off` -/
+theorem C03_extract_is_slice (p : Payload) (off w : Nat) (h : off + w ≤ p.blen) :
+    extract p off w = some (ofBitsBE ((p.bits.drop off).take w)) := extract_slice p off w h
+
+theorem C03_reading_unsigned (f : FieldSpec) (w bits : Nat)
+    (h : f.ty = .uint ∨ f.ty = .bit ∨ f.ty = .bitx) (hr : f.res = .none) : interp f w bits = .int bits :=
+  interp_unsigned f w bits h hr
+
+theorem C03_reading_scaled (f : FieldSpec) (w bits : Nat)
+    (h : f.ty = .uint ∨ f.ty = .bit ∨ f.ty = .bitx) (hr : f.res ≠ .none) :
+    interp f w bits = .scaled bits f.res := interp_unsigned_scaled f w bits h hr
+
+theorem C03_reading_twos_complement (f : FieldSpec) (w bits : Nat) (h : f.ty = .int) (hr : f.res = .none)
+    (hw : 0 < w) (hb : bits < 2 ^ w) :
+    interp f w bits = .int ((bits % 2 ^ (w - 1) : Nat) - (if bits.testBit (w - 1) then (2 ^ (w - 1) : Nat) else 0 : Int)) :=
+  interp_twos_complement f w bits h hr hw hb
+
+theorem C03_reading_sign_magnitude (f : FieldSpec) (w bits : Nat) (h : f.ty = .snt) (hr : f.res = .none)
+    (hb : bits < 2 ^ w) (hw : 0 < w) :
+    interp f w bits = .int (if bits.testBit (w - 1) then -((bits % 2 ^ (w - 1) : Nat) : Int) else (bits % 2 ^ (w - 1) : Nat)) :=
+  interp_sign_magnitude f w bits h hr hb hw
+
+theorem C03_reading_character (f : FieldSpec) (w bits : Nat) (h : f.ty = .cha) : interp f w bits = .text [bits] :=
+  interp_char f w bits h
+
+/-- One occurrence of a plain field (not a derived label, not text-concatenated, not one of the
+    MSM masks / IDF038 that trigger bookkeeping): exactly one attribute is set — under the field's
+    id and the current group indices — to the reading of the field's own bit slice; the offset
+    advances by the field width; satellite / cell maps are untouched. -/
+theorem C03_plain_field (c : Ctx) (fid : Nat) (idx : List Nat) (s : DState) (f : FieldSpec)
+    (hf : c.T.field? fid = some f)
+    (hty : f.ty = .uint ∨ f.ty = .bit ∨ f.ty = .bitx ∨ f.ty = .cha ∨ ((f.ty = .int ∨ f.ty = .snt) ∧ 0 < f.width))
+    (h394 : some fid ≠ c.T.special.df394) (h395 : some fid ≠ c.T.special.df395)
+    (h396 : some fid ≠ c.T.special.df396) (h038 : some fid ≠ c.T.special.idf038)
+    (hfit : s.off + f.width ≤ c.p.blen) :
+    decField c fid idx s = .ok { s with
+      off := s.off + f.width,
+      attrs := s.attrs.set (fid, idx) (interp f f.width (ofBitsBE ((c.p.bits.drop s.off).take f.width))) } := by
+  unfold decField
+  simp only [hf, fieldWidth, if_neg h396]
+  have hv : fieldValue c.p f f.width idx s
+      = .ok (interp f f.width (ofBitsBE ((c.p.bits.drop s.off).take f.width)), ofBitsBE ((c.p.bits.drop s.off).take f.width)) := by
+    unfold fieldValue
+    rw [extract_slice c.p s.off f.width hfit]
+    rcases hty with h | h | h | h | ⟨h | h, hw⟩ <;> simp [h] <;> omega
+  simp only [hv]
+  have hst : fieldStore f fid idx s.attrs (interp f f.width (ofBitsBE ((c.p.bits.drop s.off).take f.width)))
+      = .ok (s.attrs.set (fid, idx) (interp f f.width (ofBitsBE ((c.p.bits.drop s.off).take f.width)))) := by
+    unfold fieldStore
+    rcases hty with h | h | h | h | ⟨h | h, _⟩ <;> simp [h]
+  simp only [hst]
+  unfold fieldSpecial
+  simp [if_neg h394, if_neg h395, if_neg h396, if_neg h038]
+
+/-- a field that would end beyond the payload is refused, whatever its type -/
+theorem C03_field_past_end_refused (c : Ctx) (fid : Nat) (idx : List Nat) (s : DState) (f : FieldSpec)
+    (hf : c.T.field? fid = some f) (hl : isLabelTy f.ty = false) (h396 : some fid ≠ c.T.special.df396)
+    (hover : c.p.blen < s.off + f.width) : ∃ e, decField c fid idx s = .error e := by
+  cases hd : decField c fid idx s with
+  | error e => exact ⟨e, rfl⟩
+  | ok s' =>
+    exfalso
+    unfold decField at hd
+    simp only [hf, fieldWidth, if_neg h396] at hd
+    cases hv : fieldValue c.p f f.width idx s with
+    | error e => simp [hv] at hd
+    | ok r =>
+      have := fieldValue_bits_bound c.p f f.width idx s r hl hv
+      omega
+
+theorem identity_append (p ext : Bytes) (id : Ident) (h : identity p = .ok id) : identity (p ++ ext) = .ok id := by
+  unfold identity at h ⊢
+  match p, h with
+  | b0 :: b1 :: rest, h =>
+    simp only [List.cons_append] at h ⊢
+    split
+    · rename_i hm
+      rw [if_pos hm] at h
+      match rest, h with
+      | b2 :: r, h => simpa using h
+    · rename_i hm
+      rw [if_neg hm] at h
+      exact h
+
+/-- bytes after the last field change nothing: same identity, same attributes (only the stored raw
+    payload differs) -/
+theorem C03_trailing_bytes (T : Tables) (p ext : Bytes) (l : Nat) (m : Msg)
+    (h : construct T (some p) l = .ok m) (hk : m.unknown = false) :
+    construct T (some (p ++ ext)) l = .ok { m with payload := p ++ ext } := by
+  unfold construct at h ⊢
+  simp only at h ⊢
+  cases hid : identity p with
+  | foreign e => simp [hid] at h
+  | lib e => simp [hid] at h
+  | ok id =>
+    rw [identity_append p ext id hid]
+    simp only [hid] at h ⊢
+    cases hd : getDict T id with
+    | none => simp [hd] at h; rw [← h] at hk; simp at hk
+    | some d =>
+      simp only [hd] at h ⊢
+      cases hdec : decItems ⟨T, Payload.ofBytes p, id, l⟩ d [] DState.init with
+      | error e => simp [hdec] at h
+      | ok s =>
+        rw [decode_trailing T p ext id l d s hdec]
+        simp only [hdec] at h
+        injection h with h
+        rw [← h]
+
 end Rtcm
